@@ -8,7 +8,8 @@ checks = []
 na = []
 for p in props:
     pid = p["id"]
-    m = meta["checks"].get(pid)
+    mp = f"/verif/tools/meta/{pid}.json"
+    m = json.load(open(mp)) if os.path.exists(mp) else None
     if not m or not os.path.exists(f"/verif/checks/{pid}.py"):
         na.append({"property_id": pid, "reason": meta.get("not_applicable", {}).get(pid, "check not built yet in this round (work in progress; design in DESIGN.md section 3)")})
         continue
